@@ -373,3 +373,9 @@ pub fn c02_settings_decrease_live() { settings_window_change(true, 0, 5) }
 pub fn c02_settings_decrease_closed() { settings_window_change(true, 6, 11) }
 pub fn c02_settings_increase_live() { settings_window_change(false, 0, 5) }
 pub fn c02_settings_increase_closed() { settings_window_change(false, 6, 11) }
+
+/// ghost for `Send::send_reset` in the *caller's* quota obligation (C18.lerr): records the call
+pub(crate) static mut G_SEND_RESETS: u32 = 0;
+pub(crate) fn stub_send_reset_record<B>(_s: &mut Send, _r: Reason, _i: Initiator, _b: &mut Buffer<Frame<B>>, _p: &mut store::Ptr, _c: &mut Counts, _t: &mut Option<Waker>) {
+    unsafe { G_SEND_RESETS += 1 };
+}
